@@ -140,6 +140,33 @@ pub fn run(ctx: &mut Ctx) -> (&'static str, String, bool) {
     ctx.extra("exhaustive_strings", json!(total));
     ctx.extra("exhaustive_max_len", json!(maxlen));
 
+    // ---- every string of 7 and 8 characters over digits, '.', and one letter: the longest strings the 8-byte wire
+    //      field can hold, whose printed form (leading zero, default letter, rounded number) may be longer than they are ----
+    {
+        const A5: [char; 5] = ['0', '1', '9', '.', 'F'];
+        for len in [7usize, 8] {
+            let n = 5u64.pow(len as u32);
+            let parts: Vec<Part> = (0..n.div_ceil(20_000))
+                .into_par_iter()
+                .map(|ch| {
+                    let mut p = Part::new();
+                    for i in ch * 20_000..((ch + 1) * 20_000).min(n) {
+                        let mut idx = i;
+                        let mut s = String::with_capacity(len);
+                        for _ in 0..len {
+                            s.push(A5[(idx % 5) as usize]);
+                            idx /= 5;
+                        }
+                        check_string(&s, &mut p, None);
+                    }
+                    p
+                })
+                .collect();
+            for p in parts {
+                ctx.merge(p);
+            }
+        }
+    }
     // ---- all LFS-shaped 8-byte wire forms d.d[d]L[d[d]] through the VER packet ---------------
     {
         use bytes::BytesMut;
